@@ -77,7 +77,8 @@ def sig_key(violation_dict):
 class Result(object):
     """Outcome of executing one scenario."""
 
-    __slots__ = ("violation", "digest", "ticks", "probes", "faults", "schedule_sig", "nontrivial", "state_sigs", "trace")
+    __slots__ = ("violation", "digest", "ticks", "probes", "faults", "schedule_sig", "nontrivial", "state_sigs", "trace",
+                 "weight", "extra_sigs")
 
     def __init__(self):
         self.violation = None  # dict(rule, features, detail) or None
@@ -89,6 +90,8 @@ class Result(object):
         self.nontrivial = False
         self.state_sigs = ()
         self.trace = None
+        self.weight = 1  # number of evaluations this result stands for (sweep blocks run many)
+        self.extra_sigs = ()  # further distinct non-trivial case signatures (sweep blocks)
 
     def probe(self, name, amount=1):
         self.probes[name] = self.probes.get(name, 0) + amount
